@@ -1,5 +1,6 @@
 import decimal
 import io
+import sys
 import uuid
 from collections.abc import Mapping
 from datetime import date, datetime, time, timedelta
@@ -144,7 +145,11 @@ def from_decimal(data: decimal.Decimal):
         if not data.as_tuple().exponent:
             # integer
             return int(data)
-        return float(data)
+        number = float(data)
+        if data and abs(number) < sys.float_info.min:
+            # below the normal double range a float drops digits (or underflows to 0)
+            return str(data)
+        return number
     # infinity / NaN
     return str(data)
 
